@@ -75,6 +75,11 @@ func newDisjunctionSearcher(ctx context.Context, indexReader index.IndexReader,
 				for _, s := range qsearchers {
 					_ = s.Close()
 				}
+				// the optimized searcher stands in for the whole disjunction,
+				// callers (BooleanSearcher) still need to know its min
+				if ts, ok := rv.(*TermSearcher); ok {
+					ts.min = int(min)
+				}
 				return rv, nil
 			}
 		}
